@@ -122,6 +122,16 @@ CHECKS["C11"] = dict(
          "a direct Python predicate by the bounded driver. One known finding (match_any inherits the Exists de-duplication).",
     note="Assumes the C01 contracts for Comparator/Flatten/Exists/HasType nodes and the field classification of C17.",
 )
+CHECKS["C10"] = dict(
+    category="other",
+    technique="contract-based deductive verification: effect contracts (no user-code effect at construction; no materialising consumer of a child stream) on the real constructors and operator bodies + bounded event-log driver",
+    text="The public builders (let, attribute / index / call access, comparisons, contains/in_, flatten, and_/or_/not_, exists/for_all, inference, "
+         "entity/set_of, an/the, symbolic functions and predicates with a variable) are executed on the real constructors with opaque user data; "
+         "the engine logs every operation that can dispatch into user code and the obligation is an empty log on every path. The operator "
+         "bodies of the condition fragment are executed with abstract child streams: none materialises a stream. Level 'other': how many "
+         "elements the first k results pull is measured by the bounded event-log driver (one-shot generator domains, k <= 4).",
+    note="RWXNode / class-diagram lookups abstracted; isinstance/type/id/hasattr(__iter__) assumed free of user code; ForAll inherently needs the whole quantified domain.",
+)
 NOT_APPLICABLE = {
     "C05": "decided by SQLAlchemy/SQLite semantics acting on generated code; no krrood function body carries it, so no contract within reach can express it (DESIGN.md §4)",
 }
